@@ -69,9 +69,9 @@ def main(tier, seed):
                  what=lambda t, s: repr(t["steps"][0]["post"]["text"]), nontrivial=lambda t: json.dumps(t["item"], sort_keys=True))
     run.notes["late_namespace_rows"] = len(rows)
     return history.check(
-        "C15", tier, seed, run=run, variants=[{}, {}, {"comments": True}], machine="Namespaces", mc_cfg="Namespaces_%s.cfg" % tier, gen_cfg="Namespaces_gen_%s.cfg" % tier,
+        "C15", tier, seed, run=run, variants=[{}, {"head": "fontface"}, {"comments": True}, {}, {"head": "comment"}, {"head": "variables"}], machine="Namespaces", mc_cfg="Namespaces_%s.cfg" % tier, gen_cfg="Namespaces_gen_%s.cfg" % tier,
         trace_module="NamespacesTrace", adapter="adapters.namespaces", sig=sig, corrupt=corrupt,
-        tour_cap=12000 if q else 200000, n_walks=300 if q else 4000, walk_len=15 if q else 30, nontrivial=nontrivial,
+        tour_cap=17000 if q else 200000, n_walks=300 if q else 4000, walk_len=15 if q else 30, nontrivial=nontrivial,
         rule="transition tour over the intended-semantics machine (<=2 namespace rules, <=1 (quick) / 2 selectors in the generation "
              "config) x every namespace operation: add/insert @namespace (text, object), mapping set/delete, deleteRule, prefix "
              "assignment, adding and rewriting selectors in 7 forms (p|e q|e *|e |e e [p|a] undeclared z|e), detach/attach of "
